@@ -17,6 +17,7 @@ import (
 	"strconv"
 	"strings"
 	"sync"
+	"sync/atomic"
 	"time"
 
 	"verif/sim/kernel"
@@ -94,6 +95,8 @@ type batchResult struct {
 	Crashes []crash
 }
 
+var toolCrashes int64 // worker deaths below the Go runtime that did not repeat
+
 var orcaFrame = regexp.MustCompile(`(github\.com/orda-io/orda/[^\s(]+)`)
 
 func crashFingerprint(stderr string) (string, string) {
@@ -133,6 +136,7 @@ func workerBin(race bool) string {
 // runJob runs one worker process to completion, restarting after SUT crashes.
 func runJob(scratch string, id int, job worker.Job, race bool, perRunTimeout time.Duration) (*batchResult, error) {
 	out := &batchResult{}
+	unexplained := map[int]int{}
 	for attempt := 0; attempt < 200; attempt++ {
 		job.Out = filepath.Join(scratch, fmt.Sprintf("w%d-%d.jsonl", id, attempt))
 		job.Marker = filepath.Join(scratch, fmt.Sprintf("w%d-%d.cur", id, attempt))
@@ -193,6 +197,22 @@ func runJob(scratch string, id int, job worker.Job, race bool, perRunTimeout tim
 			v = &kernel.Violation{Property: job.Property, Oracle: job.Property + ".no-race", Fingerprint: raceFingerprint(tail), Message: firstLines(raceBlock(tail), 45)}
 		default:
 			line, fp := crashFingerprint(tail)
+			if fp == "" && unexplained[idx] == 0 && (job.Mode == "seeds" || idx < len(job.Plans)) {
+				// The process went down below the Go runtime's panic machinery (seen once per several
+				// thousand race-detector runs: a bare "SIGSEGV ... PC=" register dump from the tsan
+				// runtime). Nothing of the system under test is on such a stack. The same run is
+				// repeated once in a fresh process; a second death of the same run is an error.
+				unexplained[idx]++
+				atomic.AddInt64(&toolCrashes, 1)
+				fmt.Fprintf(os.Stderr, "note: worker %d died below the Go runtime in run %d (%v); repeating that run once\n%s\n", id, idx, werr, firstLines(tail, 6))
+				if job.Mode == "seeds" {
+					job.First = idx
+				} else {
+					out.Lines = append(out.Lines, worker.Line{K: "retrymark", I: idx})
+					job.Plans = job.Plans[idx:]
+				}
+				continue
+			}
 			if fp == "" {
 				return nil, fmt.Errorf("worker %d died without a Go panic (exit: %v):\n%s\n...\n%s", id, werr, firstLines(tail, 40), lastLines(tail, 15))
 			}
@@ -396,6 +416,8 @@ func execPlans(scratch string, pi *propInfo, plans []*kernel.Plan, known []strin
 						outs[mine[base+l.I-1]].Crash = &c
 						ci++
 					}
+					base += l.I
+				case "retrymark":
 					base += l.I
 				}
 			}
@@ -880,6 +902,7 @@ func doCheck(prop, tier string) int {
 		"batch_seed":             seed,
 		"oracles":                pi.Oracles,
 		"engines":                perEngine,
+		"worker_deaths_below_go_runtime_repeated_clean": atomic.LoadInt64(&toolCrashes),
 	}
 	if len(samples) == 0 {
 		cov["samples"] = []interface{}{map[string]interface{}{"note": "no violation-free non-trivial run in this batch to sample"}}
